@@ -92,7 +92,12 @@ def trace_record(run, text, optargs, cfgrec, cfgt, keeppen=0, name=""):
     chains, tonly, tlist = parse_opts(optargs)
     multi = len(rec["confs"]) > 1
     # census is decided for single-conformation inputs without duplicate coordinates (C08 handles the others)
-    census = 0 if (multi or idx.dups or knife) else 1
+    # ... and for alternate-location inputs of one model in which every residue position holds one residue type: after
+    # completion every conformation holds every residue, so each conformation owes the census of the input
+    keys_ = [(r["model"], r["chain"], r["num"], r["ic"]) for r in inres]
+    altloc_only = multi and len({str(c)[:-1] for c in rec["confs"]}) == 1 and len(set(keys_)) == len(keys_) \
+        and len({r["model"] for r in inres}) == 1 and not any(len({idx.recs[j].resn for j in r["ids"]}) > 1 for r in inres)
+    census = 0 if ((multi and not altloc_only) or idx.dups or knife) else 1
     for cname, gl in rec["G"].items():
         conf = run.mol.conformations[cname]
         byatom = {}
@@ -115,7 +120,7 @@ def trace_record(run, text, optargs, cfgrec, cfgt, keeppen=0, name=""):
                 "hasfile": 1 if rec["file"] else 0})
     f = rec["file"] or {"summary": [], "det_groups": []}
     rec["file"] = {"summary": f["summary"], "det_groups": f["det_groups"]}
-    rec["_others"] = rec.pop("others", None)      # kept for the harness, removed before the record goes to TLC
+    rec["_others"] = rec.get("others")      # (older harness code reads this name)
     return rec
 
 
